@@ -59,7 +59,9 @@ def cases(draw):
         k = draw(st.integers(0, min(3, n - 1)))
         ts = draw(st.lists(st.integers(0, n - 1).filter(lambda j: j != i), min_size=k, max_size=k, unique=True)) if n > 1 else []
         edges += [[i, j] for j in ts]
-    return {"files": files, "edges": edges}
+    # the root may assign one attribute from its own rule and from the same-named rule of an import (-> OBJECT), and
+    # the files may define different Comment rules (the root's applies)
+    return {"files": files, "edges": edges, "both": draw(st.booleans()), "comments": draw(st.booleans())}
 
 
 def strategy(tier):
@@ -94,6 +96,18 @@ def alias_target(case, i):
         return resolve(case, i, f["uses"])
     cands = [j for j in [i] + imports(case, i) if f["uses"] in case["files"][j]["rules"]]
     return cands[f["alias_pick"] % len(cands)] if cands else None
+
+
+def both_target(case):
+    """(rule name, importing-visible file) such that the root defines the rule and a direct import defines one of the
+    same name, or None"""
+    if not case.get("both"):
+        return None
+    for r in case["files"][0]["rules"]:
+        for j in imports(case, 0):
+            if j != 0 and r in case["files"][j]["rules"]:
+                return (r, j)
+    return None
 
 
 def rel_import(case, i, j):
@@ -131,7 +145,12 @@ def evaluate(case):
         t = "".join(f"import {rel_import(case, i, j)}\n" for j in imports(case, i))
         if i == 0:
             vis = [0] + imports(case, 0)
-            t += "Model: items+=Item;\nItem: " + " | ".join(f"U{j}" for j in vis) + ";\n"
+            both = both_target(case)
+            t += "Model: items+=Item;\nItem: " + " | ".join([f"U{j}" for j in vis] + (["Both"] if both else [])) + ";\n"
+            if both:
+                t += f"Both: 'both' (c={both[0]} | c={ns(case, both[1])}.{both[0]});\n"
+        if case.get("comments"):
+            t += "Comment: /\\/\\/.*?$/;\n" if i == 0 else "Comment: /#.*?$/;\n"
         tgt = resolve(case, i, f["uses"])
         ref = f["uses"]
         if tgt is not None and f["qualified"]:
@@ -218,6 +237,22 @@ def evaluate(case):
                     continue
                 if c._tx_fqn != fq:
                     out.add("fqn", ctx + f": metamodel[{fq!r}]._tx_fqn == {c._tx_fqn!r}")
+        both = both_target(case)
+        if both:
+            out.cls("attribute_from_two_same_named_rules")
+            r, j = both
+            acls = mm["Both"]._tx_attrs["c"].cls
+            if acls.__name__ != "OBJECT":
+                out.add("both/attribute_type", ctx + f": Both.c is assigned from g0.{r} and {ns(case, j)}.{r} but its type is "
+                        f"{getattr(acls, '_tx_fqn', acls.__name__)}, expected OBJECT")
+            for fi in (0, j):
+                t2 = f"both {kw(fi, r)} 7"
+                try:
+                    o = mm.model_from_str(t2).items[0].c
+                    if getattr(type(o), "_tx_fqn", None) != ns(case, fi) + "." + r:
+                        out.add("both/wrong_rule_chosen", ctx + f": input {t2!r}: object of {getattr(type(o), '_tx_fqn', None)}")
+                except TextXError as e:
+                    out.add("both/rejected", ctx + f": input {t2!r}: {e}")
         # parse one item per user rule visible from the root and follow the chain
         for j in [0] + imports(case, 0):
             f = case["files"][j]
@@ -242,6 +277,19 @@ def evaluate(case):
                 out.add("rule_of_another_file_used/" + ("cyclic_back_reference" if back_ref else
                                                          ("shadowed" if shadow else "plain")), ctx + f": input {text!r}: {e}")
                 continue
+            if case.get("comments") and len(toks) >= 2:
+                # the root grammar's Comment rule ('//') applies to the whole model; the imported files' ('#') does not
+                out.cls("comment_rules_differ")
+                try:
+                    mm.model_from_str(toks[0] + " // z\n " + " ".join(toks[1:]))
+                except TextXError as e:
+                    out.add("comments/root_style_rejected", ctx + f": input {text!r} with a '//' comment: {e}")
+                try:
+                    mm.model_from_str(toks[0] + " # z\n " + " ".join(toks[1:]))
+                    if any(j2 != 0 for j2 in loaded):
+                        out.add("comments/imported_style_accepted", ctx + f": input {text!r} with a '#' comment is accepted")
+                except TextXError:
+                    pass
             o = m.items[0].x
             for t, name in chain:
                 want = ns(case, t) + "." + name
